@@ -6,9 +6,29 @@
 
 package main
 
+// specIsSwitch: the option switches tsh knows.
+func specIsSwitch(s string) bool {
+	return s == "-i" || s == "--in" || s == "-o" || s == "--out" || s == "-t" || s == "--type"
+}
+
+// specCountT: the number of -t/--type switches at the odd positions below i (i odd).
+func specCountT(args []string, i int) int {
+	if i <= 1 {
+		return 0
+	}
+	if args[i-2] == "-t" || args[i-2] == "--type" {
+		return specCountT(args, i-2) + 1
+	}
+	return specCountT(args, i-2)
+}
+
 //@ func parseOptions
 //@   flag modular: true
 //@   ensures[C19] complete-or-no-return: len(result.in) > 0 && len(result.out) > 0 && len(result.converters) > 0
+//@   loop 2 invariant[C14,C19] one-factory-call-per-requested-target: calls(dyncall) == len(options.converters)
+//@   loop 2 invariant[C19] switches-at-odd-positions-all-known: i >= 1 && i % 2 == 1 && forall(j, 1, i, j % 2 == 1 ==> specIsSwitch(args[j]))
+//@   loop 2 invariant[C19] one-converter-per-type-switch: len(options.converters) == specCountT(args, i)
+//@   ensures[C14,C19] every-requested-target-gets-its-own-converter: calls(dyncall) == len(result.converters)
 //
 //@ func main
 //@   loop 1 invariant[C19] one-transpile-one-write-per-target: calls(Transpile) == rangeindex + 1 && calls(os_WriteFile) == rangeindex + 1 && calls(path_filepath_Join) == rangeindex + 1 && calls(path_filepath_Base) == rangeindex + 1 && calls(path_filepath_Ext) == rangeindex + 1 && calls(Extension) == rangeindex + 1 && calls(parseOptions) == 1
